@@ -124,6 +124,10 @@ SHAPES = [
     ("FixedArray", "list"),
     ("FixedArray", "tuple"),
     ("FixedArray", "ndarray"),
+    ("Array", "ndarray:int32"),
+    ("Array", "ndarray:int64"),
+    ("Array", "ndarray:float32"),
+    ("FixedArray", "ndarray:int16"),
 ]
 
 
@@ -132,6 +136,9 @@ def _container(kind, vals):
         return list(vals)
     if kind == "tuple":
         return tuple(vals)
+    if ":" in kind:
+        dt = kind.split(":")[1]
+        return np.array([int(v) for v in vals], dtype=dt) if dt.startswith(("int", "uint")) else np.array(vals, dtype=dt)
     return np.array(vals, dtype=float)
 
 
@@ -144,7 +151,7 @@ def build(cls, kind, q, vals, n):
 
 
 def build_expr(cls, kind, qexpr, vals, n):
-    cont = {"list": "%r", "tuple": "tuple(%r)", "ndarray": "np.array(%r)"}
+    cont = {"list": "%r", "tuple": "tuple(%r)", "ndarray": "np.array(%r)", "ndarray:int32": "np.array(%r).astype('int32')", "ndarray:int64": "np.array(%r).astype('int64')", "ndarray:float32": "np.array(%r, dtype='float32')", "ndarray:int16": "np.array(%r).astype('int16')"}
     if cls == "Scalar":
         return "Scalar.CreateWithQuantity(%s, %r)" % (qexpr, vals[0])
     c = cont[kind] % (list(vals[:n]),)
@@ -217,6 +224,8 @@ def _task(task):
     kind, payload = task
     if kind == "pairs":
         return _pairs_task(payload)
+    if kind == "direct":
+        return _direct_task(payload)
     part = Part()
     with worlds.world("posc") as db:
         model = Model(db)
@@ -238,7 +247,14 @@ def _task(task):
                                     if expr in ("x/k", "x//k") and not isinstance(kpy, list) and kpy == 0:
                                         continue  # division by zero is not in the property
                                     x = build(cls, ckind, q, vals, n)
-                                    xvals = [vals[0]] if cls == "Scalar" else list(vals[:n])
+                                    xvals = [vals[0]] if cls == "Scalar" else [float(t) for t in np.asarray(x.GetValues(), dtype=float)]
+                                    if ckind and ":" in ckind:
+                                        if isinstance(kpy, list) or kname.startswith("ndarray") or (ckind.endswith("int16") and kname.startswith(("np.int32", "np.int64"))):
+                                            pass
+                                        if ckind.endswith("float32") or ckind.endswith("int16"):
+                                            ktol = max(ktol or 0.0, 1e-6 if ckind.endswith("float32") else 0.0)
+                                        if expr in ("k/x", "k//x", "x/k", "x//k") and any(t == 0 for t in xvals):
+                                            continue  # integer truncation produced a zero element
                                     sig = "C09:%s[%s,len %d]:%s:%s:k=%s:values %d" % (cls, ckind, n, qname, expr, kname, vi)
                                     snippet = lambda cls=cls, ckind=ckind, qexpr=qexpr, vals=vals, n=n, kname=kname, expr=expr: (  # noqa: E731
                                         "import numpy as np\nfrom mc import worlds\nfrom barril.units import *\nfrom barril.units import GetUnknownQuantity, ObtainQuantity, Quantity\n"
@@ -346,6 +362,36 @@ def _pairs_task(task):
     return part
 
 
+DIRECT = [("length", "m"), ("time", "s"), ("mass", "kg"), ("depth", "km"), ("temperature", "K"), ("time", "min"), ("length", "cm"), ("pressure", "Pa")]
+
+
+def _direct_task(_):
+    """Operands whose Quantity was built with the backwards-compatible constructor Quantity(category, unit):
+    such quantities are NOT interned and die with their operand.  A long alternating sequence of short-lived
+    operands (addresses get reused) through k/x, k//x, k*x, x/k on Scalar and Array."""
+    part = Part()
+    with worlds.world("posc") as db:
+        model = Model(db)
+        for rounds in range(40):
+            for cat, unit in DIRECT:
+                for cls, ckind in (("Scalar", None), ("Array", "list"), ("Array", "ndarray")):
+                    for expr in ("k/x", "k*x", "k//x", "x/k"):
+                        q = Quantity(cat, unit)
+                        n = 1 if cls == "Scalar" else 2
+                        x = build(cls, ckind, q, VALUES[0], n)
+                        part.count("evaluations")
+                        sig = "C09:uninterned operand Quantity(%r, %r):%s[%s] %s (round %d)" % (cat, unit, cls, ckind, expr, rounds)
+                        try:
+                            r = _apply(expr, x, 2.0)
+                        except Exception as e:
+                            part.violation(sig + ":raised", {"error": repr(e)})
+                            continue
+                        judge(part, model, db, sig, None, expr, x, q, list(VALUES[0][:n]), 2.0, None, r)
+                        del x, r, q
+        part.count("uninterned_operand_rounds", 40)
+    return part
+
+
 def _kexpr(kname, n):
     if kname.startswith("ndarray 0-d float"):
         return "np.array(2.5)"
@@ -366,6 +412,7 @@ def run(ctx):
     n = 32 if ctx.thorough else 16
     tasks = [("pool", (depth, i, n)) for i in range(n)]
     tasks += [("pairs", STEPS[i::8]) for i in range(8)]
+    tasks += [("direct", None)]
     if ctx.thorough:
         with worlds.world("posc") as db:
             qts = sorted(db.GetQuantityTypes(), key=lambda q: -len(db.GetUnits(q)))
@@ -374,8 +421,8 @@ def run(ctx):
     c = ctx.part.counters
     ctx.level = "exploration"
     ctx.rule = (
-        "complete product: quantity pool (simple, second category, affine, empty, unknown + every ordered composing map of the depth-%d derived-quantity graph) x 7 value-object shapes "
-        "(Scalar, Array/FixedArray over list/tuple/ndarray, lengths 0,1,3 / 2,3) x 22 scalar numbers (13 python/numpy types; values incl. 0, -0.0, +-1) (+4 ndarray kinds for containers) x 10 expressions x 2 value assignments%s; "
+        "complete product: quantity pool (simple, second category, affine, empty, unknown + every ordered composing map of the depth-%d derived-quantity graph) x 11 value-object shapes "
+        "(Scalar, Array/FixedArray over list/tuple/ndarray incl. int16/int32/int64/float32 ndarrays, lengths 0,1,3 / 2,3) x 22 scalar numbers (13 python/numpy types; values incl. 0, -0.0, +-1) (+4 ndarray kinds for containers) x 10 expressions x 2 value assignments%s; "
         "+ every ordered pair of 40 (shape, expression) steps on 7 quantities, each pair on a FRESH hand-registered database (depth-2 histories); non-trivial/distinct = distinct quantities in the pool; outcomes = distinct verdict keys" % (depth, "; plus every unit of the table x 4 shapes x 4 k x 6 expressions" if ctx.thorough else "")
     )
     ctx.coverage_extra = {"k_type_shape_combinations": len(ctx.part.sets.get("ktypes", ())), "table_units": c.get("table_units", 0), "zero_division_skipped": c.get("zero_division", 0), "expression_pairs": c.get("expression_pairs", 0)}
